@@ -278,13 +278,13 @@ def judge_find(ctx, args, res, exc, diag, origin):
             stage = 'segmentation'
         ctx.violation('find_points_differ',
                       'bins have the sizes of the expected runs but do not hold those input points unchanged',
-                      case, stage=stage, what='data', **keys)
+                      case, stage=stage, part='data', **keys)
         return
     if (data.variances is None) != (buf.variances is None) or (
             data.variances is not None and
             _b(np.asarray(buf.variances)[idx_obs]) != _b(np.asarray(data.variances)[idx_exp])):
         ctx.violation('find_points_differ', 'variances of the points are not carried unchanged', case,
-                      stage='content', what='variances', **keys)
+                      stage='content', part='variances', **keys)
         return
     for name, co in data.coords.items():
         if co.dims != (dim,):
@@ -294,7 +294,7 @@ def judge_find(ctx, args, res, exc, diag, origin):
                 _b(np.asarray(bc.values)[idx_obs]) != _b(np.asarray(co.values)[idx_exp]):
             ctx.violation('find_coords_differ',
                           f'coordinate {name!r} of the points is not carried unchanged into the bins', case,
-                          stage='content', what='coord', **keys)
+                          stage='content', part='coord', **keys)
             return
 
 
@@ -651,10 +651,26 @@ def install_monitors(tr: Tracer, ctx, origin=None):
                 setattr(diag, attr, ev.result)
         return on_return
 
-    def public(judge):
+    def snapshot(name):
+        # the state of the input at call time: "unchanged" is relative to what was passed in,
+        # and the callee may alias (shallow-copy) and alter the caller's object
+        def on_start(ev):
+            v = ev.args.get(name)
+            try:
+                return v.copy() if isinstance(v, sc.DataArray) else None
+            except Exception:  # noqa: BLE001
+                return None
+        return on_start
+
+    def public(judge, name):
         def on_return(ev):
             try:
-                judge(ctx, ev.args, ev.result, ev.exc, diag, origin['v'])
+                args = dict(ev.args)
+                if ev.pre is not None:
+                    args[name] = ev.pre
+                judge(ctx, args, ev.result, ev.exc, diag, origin['v'])
+            except Exception:  # noqa: BLE001  (a monitor must never raise into the code it watches)
+                ctx.oracle_error('C19 monitor ' + judge.__name__)
             finally:
                 diag.clear()
         return on_return
@@ -663,9 +679,11 @@ def install_monitors(tr: Tracer, ctx, origin=None):
     tr.watch(F._check_total_tolerance, '_check_total_tolerance', on_return=helper('guard'))
     tr.watch(F._next_highest, '_next_highest', on_return=helper('next_highest'))
     tr.watch(F._is_approximate_multiple, '_is_approximate_multiple', on_return=helper('mask'))
-    tr.watch(F.find_plateaus, 'find_plateaus', on_return=public(judge_find))
-    tr.watch(F.collapse_plateaus, 'collapse_plateaus', on_return=public(judge_collapse))
-    tr.watch(F.filter_in_phase, 'filter_in_phase', on_return=public(judge_filter))
+    tr.watch(F.find_plateaus, 'find_plateaus', on_start=snapshot('data'), on_return=public(judge_find, 'data'))
+    tr.watch(F.collapse_plateaus, 'collapse_plateaus', on_start=snapshot('plateaus'),
+             on_return=public(judge_collapse, 'plateaus'))
+    tr.watch(F.filter_in_phase, 'filter_in_phase', on_start=snapshot('frequency'),
+             on_return=public(judge_filter, 'frequency'))
     return origin
 
 
@@ -1045,11 +1063,15 @@ def run(shard, ctx):
     if bad:
         ctx.inconclusive_because('unit table cross-check failed: ' + '; '.join(bad))
         return
-    rng = np.random.Generator(np.random.PCG64([shard['seed'], shard['index'], 19]))
+    def stream(part, i):
+        # one stream per case: the workload does not depend on what the code under test returned
+        return np.random.Generator(np.random.PCG64([shard['seed'], shard['index'], 19, part, i]))
+
     tr = Tracer()
     origin = install_monitors(tr, ctx)
     with tr:
         for i in range(shard['series']):
+            rng = stream(0, i)
             da, kw, meta = gen_series(rng)
             origin['v'] = 'direct'
             before = ctx.n_violations
@@ -1089,7 +1111,7 @@ def run(shard, ctx):
                 pass
         origin['v'] = 'direct'
         for i in range(shard['filters']):
-            da, ref, rtol = gen_frequencies(rng)
+            da, ref, rtol = gen_frequencies(stream(1, i))
             try:
                 filter_in_phase(da, reference=ref, rtol=rtol)
             except Exception:  # noqa: BLE001
@@ -1098,7 +1120,7 @@ def run(shard, ctx):
                 ctx.sample({'function': 'filter_in_phase', 'frequency': _descr(da.data),
                             'reference': _descr(ref), 'rtol': _descr(rtol)})
         for i in range(shard['bins']):
-            da, cname, edge = gen_bins(rng)
+            da, cname, edge = gen_bins(stream(2, i))
             ctx.count('bins_edge:' + edge)
             try:
                 collapse_plateaus(da, coord=cname)
